@@ -48,16 +48,93 @@ FindFrom(t, needle, from, ce) ==
 
 FindAll(t, cb, ce, needle) == FindFrom(t, needle, cb, ce)
 
-\* case folding of abstract characters: pairs (upper -> lower) of the concretisation table
-Lower(c) == CASE c = 41 -> 11      \* 'A' -> 'a'
-              [] c = 61 -> 21      \* 'B' -> 'b'
-              [] c = 22 -> 12      \* 'É' -> 'é'
-              [] OTHER -> c
-LowerSeq(s) == [i \in DOMAIN s |-> Lower(s[i])]
-\* characters whose lower-casing changes the number of codepoints are excluded from nocase searches
-LowerStable(s) == \A i \in DOMAIN s : s[i] # 32
+\* case folding of abstract characters: Lower(c) is a *sequence* because lower-casing can change the number of
+\* codepoints (32 = U+0130 lower-cases to 91 52 = 'i' + U+0307)
+Lower(c) == CASE c = 41 -> <<11>>      \* 'A' -> 'a'
+              [] c = 61 -> <<21>>      \* 'B' -> 'b'
+              [] c = 22 -> <<12>>      \* 'É' -> 'é'
+              [] c = 32 -> <<91, 52>>
+              [] OTHER -> <<c>>
+LowerSeq(s) == Flatten([i \in DOMAIN s |-> Lower(s[i])])
 
-FindAllNoCase(t, cb, ce, needle) == FindFrom(LowerSeq(t), LowerSeq(needle), cb, ce)
+\* case-insensitive match of needle at original position p: the shortest k >= 1 such that the lower-cased
+\* characters p+1..p+k equal the lower-cased needle (0 = no match)
+NoCaseLenAt(t, needle, p, ce) ==
+    LET K == {k \in 1..(ce - p) : LowerSeq(SubSeq(t, p + 1, p + k)) = LowerSeq(needle)}
+    IN IF K = {} THEN 0 ELSE CHOOSE k \in K : \A j \in K : k <= j
+
+RECURSIVE FindNoCaseFrom(_, _, _, _)
+FindNoCaseFrom(t, needle, from, ce) ==
+    IF needle = <<>> \/ from >= ce THEN <<>>
+    ELSE LET k == NoCaseLenAt(t, needle, from, ce)
+         IN IF k > 0 THEN << <<from, from + k>> >> \o FindNoCaseFrom(t, needle, from + k, ce)
+            ELSE FindNoCaseFrom(t, needle, from + 1, ce)
+
+FindAllNoCase(t, cb, ce, needle) == FindNoCaseFrom(t, needle, cb, ce)
+
+----------------------------------------------------------------------------
+(* Regular expressions, restricted to what is needed to exercise match, capture-group and offset translation: *)
+(* a pattern is a sequence of groups [alts: seq of literals, cap: BOOLEAN, opt: BOOLEAN] with leftmost-first   *)
+(* (Perl-like) semantics: alternatives in order, optional groups greedy.  The regex engine itself is trusted.  *)
+RxFail == [ok |-> FALSE, e |-> 0, caps |-> <<>>, nums |-> <<>>]
+
+\* capture group number of group gi = number of capturing groups among 1..gi
+CapNum(groups, gi) == Cardinality({j \in 1..gi : groups[j].cap})
+
+RECURSIVE RxFrom(_, _, _, _, _)
+RxFrom(t, ce, pos, groups, gi) ==
+    IF gi > Len(groups) THEN [ok |-> TRUE, e |-> pos, caps |-> <<>>, nums |-> <<>>]
+    ELSE LET g == groups[gi]
+             Try[ai \in 1..(Len(g.alts) + 1)] ==
+                 IF ai > Len(g.alts)
+                 THEN IF g.opt THEN RxFrom(t, ce, pos, groups, gi + 1) ELSE RxFail
+                 ELSE LET alt == g.alts[ai]
+                      IN IF pos + Len(alt) <= ce /\ SubSeq(t, pos + 1, pos + Len(alt)) = alt
+                         THEN LET r == RxFrom(t, ce, pos + Len(alt), groups, gi + 1)
+                              IN IF r.ok
+                                 THEN [ok |-> TRUE, e |-> r.e,
+                                       caps |-> (IF g.cap THEN << <<pos, pos + Len(alt)>> >> ELSE <<>>) \o r.caps,
+                                       nums |-> (IF g.cap THEN <<CapNum(groups, gi)>> ELSE <<>>) \o r.nums]
+                                 ELSE Try[ai + 1]
+                         ELSE Try[ai + 1]
+         IN Try[1]
+
+\* successive non-overlapping leftmost matches in [from, ce): [ranges, groups]; a match of a pattern with capture
+\* groups contributes the participating groups only, otherwise the whole match
+RECURSIVE RxAllFrom(_, _, _, _)
+RxAllFrom(t, from, ce, groups) ==
+    IF from > ce THEN [ranges |-> <<>>, groups |-> <<>>]
+    ELSE LET r == RxFrom(t, ce, from, groups, 1)
+             hascap == \E j \in DOMAIN groups : groups[j].cap
+         IN IF ~r.ok THEN RxAllFrom(t, from + 1, ce, groups)
+            ELSE LET rest == RxAllFrom(t, IF r.e > from THEN r.e ELSE from + 1, ce, groups)
+                 IN IF hascap THEN [ranges |-> r.caps \o rest.ranges, groups |-> r.nums \o rest.groups]
+                    ELSE [ranges |-> << <<from, r.e>> >> \o rest.ranges, groups |-> rest.groups]
+
+RegexAll(t, cb, ce, groups) == RxAllFrom(t, cb, ce, groups)
+
+----------------------------------------------------------------------------
+(* find_text_sequence: the fragments in the given order, each the first occurrence after the previous one,    *)
+(* the text skipped before each fragment consisting of characters in Skip only.  [ok, ranges]                 *)
+RECURSIVE SeqFrom(_, _, _, _, _, _)
+SeqFrom(t, from, ce, frags, Skip, nocase) ==
+    IF frags = <<>> THEN [ok |-> TRUE, ranges |-> <<>>]
+    ELSE LET ms == IF nocase THEN FindNoCaseFrom(t, Head(frags), from, ce) ELSE FindFrom(t, Head(frags), from, ce)
+         IN IF ms = <<>> THEN [ok |-> FALSE, ranges |-> <<>>]
+            ELSE LET m == ms[1]
+                 IN IF \E i \in (from + 1)..m[1] : t[i] \notin Skip THEN [ok |-> FALSE, ranges |-> <<>>]
+                    ELSE LET r == SeqFrom(t, m[2], ce, Tail(frags), Skip, nocase)
+                         IN IF r.ok THEN [ok |-> TRUE, ranges |-> <<m>> \o r.ranges] ELSE r
+
+\* is `ranges` *a* valid sequence match (whatever search strategy produced it)?
+SeqValid(t, cb, ce, frags, Skip, nocase, ranges) ==
+    /\ Len(ranges) = Len(frags)
+    /\ \A i \in DOMAIN ranges :
+         LET m == ranges[i]
+             prev == IF i = 1 THEN cb ELSE ranges[i - 1][2]
+         IN /\ prev <= m[1] /\ m[1] <= m[2] /\ m[2] <= ce
+            /\ (IF nocase THEN LowerSeq(SubSeq(t, m[1] + 1, m[2])) = LowerSeq(frags[i]) ELSE SubSeq(t, m[1] + 1, m[2]) = frags[i])
+            /\ \A j \in (prev + 1)..m[1] : t[j] \in Skip
 
 \* Split on a delimiter: the pieces between successive matches (consecutive, covering [cb, ce) minus delimiters)
 Split(t, cb, ce, delim) ==
